@@ -37,7 +37,7 @@ theorem C17_clone_then_ops (m : Machine) (o : Opts) (fuel : Nat) (c : Cfg) (v : 
 
 /-- a not yet activated async machine: the clone has exactly one `__initial__` trigger queued -/
 theorem C17_clone_unactivated (m : Machine) (fuel : Nat) (c : Cfg) (hcur : c.cur = none) :
-    (clone m { rtc := true, kind := .async } fuel c).1.queue = [{ tid := c.nextTid, event := initialEv }] ∧
+    (clone m { rtc := true, kind := .async } fuel c).1.queue = [{ tid := c.nextTid, event := initialEv, internal := true }] ∧
     (clone m { rtc := true, kind := .async } fuel c).1.cur = none := by
   unfold clone
   rw [C11_async_defers]
